@@ -134,6 +134,10 @@ func main() {
 	if !ok {
 		infra("unknown engine %q", eng)
 	}
+	switch eng {
+	case "seq", "fo", "inval", "linz", "conserve":
+		startWatchdog()
+	}
 	res := f(o)
 	res.Engine = eng
 	res.Profile = o.Profile
